@@ -87,14 +87,14 @@ def v3_threadmap(threads):
     return TAG_THREADMAP + le(len(b), 8) + b
 
 
-def v3_event_chunks(chunks, with8=True, gap=b''):
+def v3_event_chunks(chunks, with8=True, gap=b'', more_word=None):
     """chunks: list of lists of 64-byte records. A following chunk is announced by MORE_EVENTS;
     `gap` bytes may sit between the MORE_EVENTS tag and the next events tag."""
     out = b''
     for i, recs in enumerate(chunks):
         body = b''.join(recs)
         if i > 0:
-            out += TAG_MORE_EVENTS + le(0, 8) + gap
+            out += TAG_MORE_EVENTS + (le(0, 8) if more_word is None else more_word) + gap
         out += TAG_EVENTS + le(len(body) + (8 if with8 else 0), 8) + b'\0' * 8 + body
     return out
 
@@ -105,11 +105,11 @@ def v3_block(tag, payload, pad=True):
 
 
 def v3(threads=(), chunks=((),), blocks=(), filler1=b'xx', filler2=b'', with8=True, cpu_info=None, gap=b'',
-       header_kw=None):
+       header_kw=None, more_word=None):
     b = V3_MAGIC + v3_header(cpu_info, **(header_kw or {})) + b'\0' * 4
     b += filler1 + STACKSHOT_END + filler2
     b += v3_threadmap(threads)
-    b += v3_event_chunks(chunks, with8, gap)
+    b += v3_event_chunks(chunks, with8, gap, more_word)
     for blk in blocks:
         b += blk
     return b
